@@ -102,6 +102,11 @@ func flight3Parse(
 					state.ExtendedMasterSecret = true
 				}
 			case *extension.ALPNSelection:
+				// The server selects from the client's list (RFC 7301 Section
+				// 3.1); a protocol that was never offered is not a selection.
+				if !slices.Contains(cfg.SupportedProtocols, ext.Protocol) {
+					return 0, &alert.Alert{Level: alert.Fatal, Description: alert.IllegalParameter}, dtlserrors.ErrALPNNoAppProto
+				}
 				state.NegotiatedProtocol = ext.Protocol
 			}
 		}
